@@ -22,7 +22,7 @@ from ..acc import Acc
 ID = "C07"
 LEVEL = "model_checking"
 TECHNIQUE = "explicit-state BFS over real storage objects (all dump keys as transitions, full read alphabet on every state) against a reference masked NumPy array"
-RULE = ("backends FileArray, DictArray, SharedMemoryDictArray x full shapes (3,), (2,3) (thorough: (3,2), (2,3,2)) x all 2^rank external/internal masks; "
+RULE = ("backends FileArray, DictArray, SharedMemoryDictArray x full shapes (3,), (2,3) (thorough: (3,) depth 5, (2,3) depth 3, (3,2) depth 2, (2,3,2) depth 1) x all 2^rank external/internal masks; "
         "transitions = dump(key, fresh value) for EVERY external key tuple over ints in [-n,n) and slices {:, ::2, ::-1, 1:}; reads on every state = "
         "__getitem__ for every full-rank key tuple from the same per-axis menu, to_array(splat_internal None/False/True), mask, mask_linear, has_index, "
         "get_from_index, persist+reopen, and error keys (each axis out of range by +-1, rank +-1). States merged by stored content with values renamed by first appearance")
@@ -31,7 +31,7 @@ ASSUMPTIONS = ["reference = numpy masked object array of the full shape (vmc/pro
                "get_from_index is only read for written elements (reading an unwritten linear index is not specified)",
                "to_array(splat_internal=True) without an internal shape is not specified (raises ValueError today) and is skipped",
                "SharedMemoryDictArray objects share one real multiprocessing.Manager per worker process"]
-BUDGET = {"quick": 80.0, "thorough": 900.0}
+BUDGET = {"quick": 80.0, "thorough": 1500.0}
 
 SLICES = [slice(None), slice(None, None, 2), slice(None, None, -1), slice(1, None)]
 CLASSES = {"file_array": FileArray, "dict": DictArray, "shared_memory_dict": SharedMemoryDictArray}
@@ -346,7 +346,7 @@ def bfs(cfg, depth, acc, chunk=0, nchunks=1):
     acc.sample({"cfg": cfg, "depth": depth, "write_alphabet": len(writes), "example_history": writes[:2]})
 
 
-SHAPES = {"quick": [((3,), 3), ((2, 3), 2)], "thorough": [((3,), 4), ((2, 3), 3), ((3, 2), 3), ((2, 3, 2), 2)]}
+SHAPES = {"quick": [((3,), 3), ((2, 3), 2)], "thorough": [((3,), 5), ((2, 3), 3), ((3, 2), 2), ((2, 3, 2), 1)]}
 
 
 def plan(tier, seed):
